@@ -165,13 +165,14 @@ class Sim:
     def arg_info(self, iface, name, idx, a, gtobj, dialect_free=True):
         """neutral projection of one argument as the tool is expected to display it:
         {name, kind, value, labels, nil_type, obj}"""
-        known = iface in self.cands and (iface, name) != ('wl_registry', 'bind')
+        known = iface in self.cands and (iface, name) != ('wl_registry', 'bind') and name in self.cands[iface][0]['messages']
         desc = None
         info = {'name': None, 'kind': None, 'value': None, 'labels': None, 'nil_type': None, 'obj': None}
         if known:
             md = self.msg_desc(iface, name)
-            desc = md['args'][idx]
-            info['name'] = desc['name']
+            if idx < len(md['args']):          # an argument the XML does not describe (newer protocol version) stays undecorated
+                desc = md['args'][idx]
+                info['name'] = desc['name']
         k = a['k']
         if k in 'iu':
             info['kind'] = 'int'
@@ -498,6 +499,41 @@ class Sim:
                 return True
         return False
 
+    def act_newer_protocol(self):
+        """the program speaks a newer protocol version than the shipped XML: a message the XML does not have on a known
+        interface, or a known message with one more argument.  Still a well-formed libwayland line; expected undecorated."""
+        obs = [o for o in self.live() if o.type in self.cands and o.type not in ('wl_display', 'wl_registry', 'wl_callback')]
+        if not obs:
+            return False
+        ob = self.rng.choice(obs)
+        if self.rng.random() < 0.5:
+            args = []
+            for _ in range(self.rng.randint(0, 3)):
+                k = self.rng.choice('iufsoh')
+                if k == 'o':
+                    args.append({'k': 'o', 'obj': self.any_object() if self.rng.random() < 0.7 else None})
+                elif k == 's':
+                    args.append({'k': 's', 'v': self.rng.choice(STRINGS + [None])})
+                else:
+                    args.append(printer.gen_arg(self.rng, k))
+            self.emit(self.rng.random() < 0.5, ob, self.rng.choice(['vq_future_request', 'set_vq_thing', 'new_in_v99']), args)
+            self.stats['newer_protocol_msgs'] = self.stats.get('newer_protocol_msgs', 0) + 1
+            return True
+        names = sorted(self.cands[ob.type][0]['messages'])
+        self.rng.shuffle(names)
+        for name in names[:5]:
+            md = self.msg_desc(ob.type, name)
+            if md is None or (ob.zombie and not md['is_event']) or md.get('destructor') or any(a['type'] == 'new_id' for a in md['args']):
+                continue
+            args = self.gen_args(ob, name, md)
+            if args is None:
+                continue
+            args.append(self.rng.choice([{'k': 'u', 'v': self.rng.randint(0, 9)}, {'k': 's', 'v': 'extra'}, {'k': 'o', 'obj': None}]))
+            self.emit(not md['is_event'], ob, name, args)
+            self.stats['newer_protocol_msgs'] = self.stats.get('newer_protocol_msgs', 0) + 1
+            return True
+        return False
+
     def act_titles(self):
         """messages the tool also uses for the connection's title (set_title / set_app_id / get_layer_surface), with
         awkward strings"""
@@ -560,7 +596,9 @@ class Sim:
                 self.act_display_error()
             elif r < h + 0.38:
                 self.act_titles()
-            elif r < h + 0.38 + self.o['server_new'] * 0.2:
+            elif r < h + 0.38 + self.o.get('newer', 0.03):
+                self.act_newer_protocol()
+            elif r < h + 0.38 + self.o.get('newer', 0.03) + self.o['server_new'] * 0.2:
                 self.act_server_new() or self.act_global()
             else:
                 self.act_generic() or self.act_bind()
